@@ -174,10 +174,16 @@ def render(prog: list, variant: int = 0, mode: str = "visit") -> Rendered:
                 stmt, path = (f"from . import {n}", ["pk", n]) if rel else (f"from zz import {n}", ["zz", n])
             elif x == "fromas":
                 stmt, path = (f"from .sub import orig as {n}", ["pk", "sub", "orig"]) if rel else (f"from zz import orig as {n}", ["zz", "orig"])
+            elif x == "multi":
+                stmt, path = f"import {n}, {other(n)}", None
+                info["paths"] = {n: [n], other(n): [other(n)]}
+            elif x == "frommulti":
+                stmt, path = (f"from . import {n}, {other(n)}", None) if rel else (f"from zz import {n}, {other(n)}", None)
+                info["paths"] = {a: (["pk", a] if rel else ["zz", a]) for a in (n, other(n))}
             else:
                 stmt, path = "from zz import *", ["zz"]
-            if variant % 3 == 2 and x in ("from", "fromas"):
-                stmt = stmt.replace("import ", "import (\n" + ind + "    ") + ",\n" + ind + ")"
+            if variant % 3 == 2 and x in ("from", "fromas", "frommulti"):
+                stmt = stmt.replace("import ", "import (\n" + ind + "    ").replace(", ", ",\n" + ind + "    ") + ",\n" + ind + ")"
             out.extend((ind + stmt).split("\n"))
             info["path"] = path
             info["hdr_end"] = info["last"] = len(out)
